@@ -207,10 +207,10 @@ def check_for_prefix_and_suffix_exceptions(sObjectValue, self, oToi, iIndex, iLi
         sDesiredPrefix = get_matched_prefix(sObjectValue, self.prefix_exceptions)
         sActualPrefix = extract_prefix(sObjectValue, sDesiredPrefix)
         sConstant = remove_prefix(sObjectValue, sActualPrefix)
-        sDesiredSuffix = get_matched_suffix(sConstant, self.suffix_exceptions)
-        sActualSuffix = extract_suffix(sConstant, sDesiredSuffix)
-        sConstant = remove_suffix(sConstant, sActualSuffix)
-        sExpected = sDesiredPrefix + sConstant.lower() + sDesiredSuffix
+        if suffix_detected(sConstant, self.suffix_exceptions):
+            sDesiredSuffix = get_matched_suffix(sConstant, self.suffix_exceptions)
+            sActualSuffix = extract_suffix(sConstant, sDesiredSuffix)
+            sConstant = remove_suffix(sConstant, sActualSuffix)
     elif prefix_detected(sObjectValue, self.prefix_exceptions):
         sDesiredPrefix = get_matched_prefix(sObjectValue, self.prefix_exceptions)
         sActualPrefix = extract_prefix(sObjectValue, sDesiredPrefix)
